@@ -5,34 +5,22 @@ Import ListNotations.
 Local Open Scope Q_scope.
 
 (* ------------------------------------------------------------------ AMatrix::prodMatMatInPlace (generic) *)
-(* correct when op(y) is square ... *)
-Lemma prodMatMat_generic_partial d x y tx ty : wfd d -> nr y = nc y -> dimc tx x = nr y -> nr d = dimr tx x -> nc d = nc y ->
+Lemma prodMatMat_generic d x y tx ty : wfd d -> dimc tx x = dimr ty y -> nr d = dimr tx x -> nc d = dimc ty y ->
   exists r, G_prodMatMat false d x y tx ty = Ok r /\ nr r = nr d /\ nc r = nc d /\
     meq (nr d) (nc d) (absd r) (mmul (dimc tx x) (opT tx (absd x)) (opT ty (absd y))).
 Proof.
-  intros W Sq Hk Hr Hc. unfold G_prodMatMat.
-  assert (E1 : (if ty then nr y else nc y) = nr y) by (destruct ty; congruence).
-  assert (E2 : (if ty then nc y else nr y) = nc d) by (destruct ty; congruence).
+  intros W Hk Hr Hc. unfold G_prodMatMat.
+  assert (E1 : (if ty then nc y else nr y) = dimc tx x) by (destruct ty; simpl in *; congruence).
+  assert (E2 : (if ty then nr y else nc y) = nc d) by (destruct ty; simpl in *; congruence).
   assert (E3 : (if tx then nc x else nr x) = nr d) by (destruct tx; simpl in *; congruence).
-  assert (E4 : (if tx then nr x else nc x) = nr y) by (destruct tx; simpl in *; congruence).
+  assert (E4 : (if tx then nr x else nc x) = dimc tx x) by (destruct tx; reflexivity).
   rewrite E1, E2, E3, E4. rewrite Nat.eqb_refl. simpl negb. cbv iota.
-  unfold covers. rewrite !Nat.leb_refl, Sq, Nat.eqb_refl. simpl. rewrite !andb_false_r.
-  destruct (loop_set_plain_full (fun i j _ => sumn (nc y) (fun k => (if tx then getv x k i else getv x i k) * (if ty then getv y j k else getv y k j))) d W)
+  unfold covers. rewrite !Nat.leb_refl. simpl. rewrite !andb_false_r.
+  destruct (loop_set_plain_full (fun i j _ => sumn (dimc tx x) (fun k => (if tx then getv x k i else getv x i k) * (if ty then getv y j k else getv y k j))) d W)
     as [H1 [H2 [H3 H4]]].
   eexists. split; [reflexivity|]. split; [assumption|]. split; [assumption|].
-  intros i j Hi Hj. unfold absd at 1. rewrite H4 by assumption. unfold mmul. rewrite Hk, Sq. apply sumn_ext. intros k _.
+  intros i j Hi Hj. unfold absd at 1. rewrite H4 by assumption. unfold mmul. apply sumn_ext. intros k _.
   destruct tx, ty; reflexivity.
-Qed.
-
-(* ... and refuses a well-formed product otherwise: (1 x 2).(2 x 1) leaves the destination untouched *)
-Lemma prodMatMat_generic_refuted : exists d x y,
-  wfd d /\ wfd x /\ wfd y /\ nc x = nr y /\ nr d = nr x /\ nc d = nc y /\
-  G_prodMatMat false d x y false false = Ok d /\
-  ~ meq (nr d) (nc d) (absd d) (mmul (nc x) (absd x) (absd y)).
-Proof.
-  exists (tab 1 1 (fun _ _ => 5)), (tab 1 2 (fun _ _ => 1)), (tab 2 1 (fun _ _ => 1)).
-  repeat (split; [vm_compute; reflexivity|]).
-  intro H. specialize (H O O (Nat.lt_0_succ 0) (Nat.lt_0_succ 0)). vm_compute in H. discriminate H.
 Qed.
 
 (* ------------------------------------------------------------------ AMatrix::prodNormMatMatInPlace (generic) *)
@@ -112,20 +100,41 @@ Proof.
     rewrite !lc_term_spec. ring.
 Qed.
 
-(* ------------------------------------------------------------------ AMatrix::prodNormMatVecInPlace (generic): refuted *)
-(* reads a(k,j) for A.diag.t(A) (and a(j,k) for t(A).diag.A): outside the matrix when it is not square ... *)
-Lemma prodNormMatVec_generic_refuted_ub : exists d a v c,
-  wfd d /\ wfd a /\ length v = nc a /\ nr d = nr a /\ nc d = nr a /\ G_prodNormMatVec false d a v false = UB c.
-Proof. exists (tab 1 1 mzero), (tab 1 2 (fun _ _ => 1)), [1; 1], ub_index. vm_compute. auto 10. Qed.
-(* ... and A.A instead of A.t(A) when it is *)
-Lemma prodNormMatVec_generic_refuted_value : exists d a r,
-  wfd d /\ wfd a /\ nr a = nc a /\ nr d = nr a /\ nc d = nr a /\ G_prodNormMatVec false d a [] false = Ok r /\
-  ~ meq (nr d) (nc d) (absd r) (mcongr_id false (nc a) (absd a)).
+(* ------------------------------------------------------------------ AMatrix::prodNormMatVecInPlace (generic) *)
+Lemma prodNormMatVec_generic d a v t : wfd d -> nr d = dimr t a -> nc d = dimr t a ->
+  exists r, G_prodNormMatVec false d a v t = Ok r /\ nr r = nr d /\ nc r = nc d /\
+    meq (nr d) (nc d) (absd r)
+        (match v with [] => mcongr_id t (dimc t a) (absd a) | _ => mcongr_diag t (dimc t a) (absd a) (vl v) end).
 Proof.
-  set (a := tab 2 2 (fun i j => if (j <? i)%nat then 0 else 1)).
-  exists (tab 2 2 mzero), a. eexists.
-  repeat (split; [vm_compute; reflexivity|]).
-  intro H. specialize (H O O (Nat.lt_0_succ 1) (Nat.lt_0_succ 1)). vm_compute in H. discriminate H.
+  intros W Hd1 Hd2. unfold G_prodNormMatVec.
+  assert (Sq : nr d = nc d) by congruence.
+  assert (E1 : (if t then nc a else nr a) = nr d) by (destruct t; simpl in *; congruence).
+  assert (E2 : (if t then nr a else nc a) = dimc t a) by (destruct t; reflexivity).
+  rewrite E1, E2.
+  assert (C1 : covers d (nr d) (nr d) = true) by (unfold covers; rewrite <- Sq, Nat.leb_refl; reflexivity).
+  rewrite C1. simpl. rewrite ?andb_false_r.
+  replace (rowmajor (nr d) (nr d)) with (rowmajor (nr d) (nc d)) by (rewrite <- Sq; reflexivity).
+  destruct (loop_set_plain_full (fun i j _ => sumn (dimc t a) (fun k =>
+             (if t then getv a k i else getv a i k) * (match v with [] => 1 | _ => nth k v 0 end) *
+             (if t then getv a k j else getv a j k))) d W) as [H1 [H2 [H3 H4]]].
+  eexists. split; [reflexivity|]. split; [assumption|]. split; [assumption|].
+  intros i j Hi Hj. unfold absd at 1. rewrite H4 by assumption.
+  destruct v as [|v0 v'].
+  - unfold mcongr_id, mmul. apply sumn_ext. intros k _. destruct t; cbn [opT negb]; unfold mT, absd; ring.
+  - unfold mcongr_diag, mcongr. set (v := v0 :: v').
+    transitivity (mmul (dimc t a) (fun i' l => opT t (absd a) i' l * vl v l) (opT (negb t) (absd a)) i j).
+    + unfold mmul. apply sumn_ext. intros k _. destruct t; cbn [opT negb]; unfold mT, absd, vl, v; ring.
+    + apply mmul_ext; [|intros; reflexivity]. intros l Hl. rewrite mmul_mdiag by assumption. reflexivity.
+Qed.
+
+(* AMatrix::setDiagonal (generic): the matrix becomes diag(tab) *)
+Lemma setDiagonal_generic sq d t : wfd d -> isSquare sq d = true -> nr d = nc d -> length t = nc d ->
+  exists r, G_setDiagonal sq false d t = Ok r /\ nr r = nr d /\ nc r = nc d /\ meq (nr d) (nc d) (absd r) (mdiag (vl t)).
+Proof.
+  intros W HS Sq Ht. unfold G_setDiagonal. rewrite HS, Ht, Nat.eqb_refl. simpl negb. cbv iota.
+  destruct (loop_set_plain_full (fun i j _ => if (i =? j)%nat then nth i t 0 else 0) d W) as [H1 [H2 [H3 H4]]].
+  eexists. split; [reflexivity|]. split; [assumption|]. split; [assumption|].
+  intros i j Hi Hj. unfold absd at 1. rewrite H4 by assumption. reflexivity.
 Qed.
 
 (* ------------------------------------------------------------------ row / column assignment *)
@@ -159,48 +168,66 @@ Proof.
 Qed.
 
 (* ------------------------------------------------------------------ storage agreement of the two sparse back-ends *)
-Lemma storage_agree_triplet T i j :
-  (i < nr (sem (SE_fromTriplet T)))%nat -> (j < nc (sem (SE_fromTriplet T)))%nat ->
-  getv (sem (SE_fromTriplet T)) i j == abs_csc (scs (SC_fromTriplet T)) i j.
+(* both back-ends receive the same completed triplet list; Eigen's content equals the compressed csparse matrix (before
+   cs_dupl merges the duplicates, which does not change the accumulated content: see cs_dupl_spec) *)
+Lemma storage_agree_triplet T nrow ncol i j :
+  (i < nr (sem (SE_create T nrow ncol)))%nat -> (j < nc (sem (SE_create T nrow ncol)))%nat ->
+  getv (sem (SE_create T nrow ncol)) i j == abs_csc (cs_triplet (create_trips T nrow ncol)) i j.
 Proof.
-  intros Hi Hj. unfold SE_fromTriplet in *. simpl in *. rewrite getv_tab by assumption.
-  unfold SC_fromTriplet. simpl. rewrite cs_compress_spec. reflexivity.
+  intros Hi Hj. unfold SE_create in *. simpl in *. rewrite getv_tab by assumption.
+  rewrite cs_compress_spec. reflexivity.
 Qed.
 
-(* ------------------------------------------------------------------ sparse wrappers: witnesses of the defects *)
-Definition tr (i j : nat) (v : Q) : trip := (i, j, v).
-Arguments tr (i j)%nat v%Q.
-Definition T23 : list trip := [tr 0 0 1; tr 1 0 2; tr 0 1 3; tr 1 1 4; tr 0 2 5; tr 1 2 6].
-(* x.M for a 2 x 3 csparse matrix is returned with 2 entries instead of 3 *)
-Lemma prodVecMat_cs_refuted : exists r, SC_prodVecMat (SC_fromTriplet T23) [1; 1] false = r /\ r <> Ok [3; 7; 11].
-Proof. eexists. split; [reflexivity|]. vm_compute. intro H. discriminate H. Qed.
-(* transposeInPlace on the csparse back-end drops the values (cs_transpose(A, 0)): reading any stored entry dereferences NULL *)
-Lemma transpose_cs_refuted : exists s, SC_transposeInPlace (SC_fromTriplet [tr 0 0 1]) = Ok s /\ SC_getValues s = UB ub_segv.
-Proof. eexists. split; [reflexivity|]. vm_compute. reflexivity. Qed.
-(* on the Eigen back-end _nRows/_nCols are not swapped *)
-Lemma transpose_eigen_refuted : exists s, SE_transposeInPlace (SE_fromTriplet T23) = Ok s /\ enr s = 2%nat /\ nr (sem s) = 3%nat /\ SE_getValues s = UB ub_index.
-Proof. eexists. split; [reflexivity|]. vm_compute. auto. Qed.
-(* x.t(M) in place on the Eigen back-end multiplies by x once more *)
-Lemma prodVecMatInPlace_eigen_refuted : exists c, SE_prodVecMatInPlace (SE_fromTriplet T23) [1; 1; 1] [0; 0] true = UB c.
-Proof. eexists. vm_compute. reflexivity. Qed.
-(* createFromAnyMatrix loses trailing zero rows *)
-Lemma fromAny_refuted : exists d, wfd d /\ nr d = 2%nat /\ snr (SC_fromTriplet (dense_to_triplet d)) = 1%nat /\ enr (SE_fromTriplet (dense_to_triplet d)) = 1%nat.
-Proof. exists (tab 2 1 (fun i _ => if (i =? 0)%nat then 1 else 0)). vm_compute. auto. Qed.
-(* row scaling on the csparse back-end overruns the copy as soon as two triplets share a position *)
-Lemma multiplyRow_cs_refuted : exists c, SC_multiplyRow (SC_fromTriplet [tr 0 0 1; tr 0 0 1]) [2] = UB c.
-Proof. eexists. vm_compute. reflexivity. Qed.
-
-(* ------------------------------------------------------------------ VectorNumT: witnesses *)
-Lemma VN_maximum_refuted : exists v, v <> [] /\ (forall x, In x v -> x < 0) /\ 0 < VN_maximum v.
+(* MatrixSparse::transposeInPlace / transpose, csparse back-end: values kept, dimensions swapped *)
+Lemma transpose_cs s : rows_ok (scs s) -> (0 < cm (scs s))%nat -> (0 < cn (scs s))%nat ->
+  exists s', SC_transposeInPlace s = Ok s' /\ snr s' = snc s /\ snc s' = snr s /\
+    cm (scs s') = cn (scs s) /\ cn (scs s') = cm (scs s) /\
+    forall i j, (i < cm (scs s))%nat -> (j < cn (scs s))%nat -> abs_csc (scs s') j i == abs_csc (scs s) i j.
 Proof.
-  exists [-(1)]. split; [discriminate|]. split.
-  - intros x [<-|[]]. reflexivity.
-  - vm_compute. reflexivity.
+  intros Hr Hm Hn. destruct (cs_transpose_spec (scs s) Hr Hm Hn) as [c [E [C1 [C2 G]]]].
+  unfold SC_transposeInPlace. rewrite E. eexists. split; [reflexivity|]. simpl. auto.
 Qed.
-Lemma VN_divide_refuted : exists a b, length a = length b /\ (forall x, In x b -> ~ x == 0) /\ VN_divide a b = Exn.
+(* Eigen back-end *)
+Lemma transpose_eigen s :
+  exists s', SE_transposeInPlace s = Ok s' /\ enr s' = enc s /\ enc s' = enr s /\
+    nr (sem s') = nc (sem s) /\ nc (sem s') = nr (sem s) /\
+    forall i j, (i < nr (sem s))%nat -> (j < nc (sem s))%nat -> getv (sem s') j i = getv (sem s) i j.
 Proof.
-  exists [1], [1 # 2]. split; [reflexivity|]. split; [|vm_compute; reflexivity].
-  intros x [<-|[]] H. discriminate H.
+  eexists. split; [reflexivity|]. simpl. repeat split; auto.
+  intros i j Hi Hj. rewrite getv_tab by assumption. reflexivity.
+Qed.
+
+(* ------------------------------------------------------------------ VectorNumT::maximum / divide *)
+Lemma fold_max_spec v : forall m,
+  let r := fold_left (fun m x => if qltb m x then x else m) v m in
+  m <= r /\ (forall x, In x v -> x <= r) /\ (r = m \/ In r v).
+Proof.
+  induction v as [|a v IH]; intro m; simpl.
+  - split; [lra|]. split; [tauto|auto].
+  - destruct (qltb_spec m a) as [H|H].
+    + destruct (IH a) as [H1 [H2 H3]]. split; [lra|]. split.
+      * intros x [<-|Hx]; [assumption|apply H2; assumption].
+      * destruct H3 as [->|H3]; right; [left; reflexivity|right; assumption].
+    + destruct (IH m) as [H1 [H2 H3]]. split; [assumption|]. split.
+      * intros x [<-|Hx]; [lra|apply H2; assumption].
+      * destruct H3 as [->|H3]; [left; reflexivity|right; right; assumption].
+Qed.
+Lemma VN_maximum_spec v : v <> [] -> (forall x, In x v -> - dbl_max <= x) ->
+  (forall x, In x v -> x <= VN_maximum v) /\ exists x, In x v /\ x == VN_maximum v.
+Proof.
+  intros Hne Hlow. unfold VN_maximum. destruct v as [|a v']; [contradiction|]. set (v := a :: v') in *.
+  destruct (fold_max_spec v (- dbl_max)) as [H1 [H2 H3]]. split; [exact H2|].
+  destruct H3 as [E|Hin].
+  - exists a. split; [left; reflexivity|]. assert (In a v) by (left; reflexivity).
+    pose proof (H2 a H). pose proof (Hlow a H). rewrite E in *. lra.
+  - eexists. split; [exact Hin|reflexivity].
+Qed.
+Lemma VN_divide_spec a b : length a = length b -> (forall x, In x b -> eps10 <= Qabs x) ->
+  VN_divide a b = Ok (map (fun p => fst p / snd p) (combine a b)).
+Proof.
+  intros H Hb. unfold VN_divide. rewrite H, Nat.eqb_refl. simpl negb. cbv iota.
+  destruct (existsb (fun x => qltb (Qabs x) eps10) b) eqn:E; [|reflexivity].
+  apply existsb_exists in E. destruct E as [x [Hx Hlt]]. apply qltb_true in Hlt. specialize (Hb x Hx). lra.
 Qed.
 
 (* ------------------------------------------------------------------ normal forms used by the Examples of Properties.v *)
@@ -228,4 +255,71 @@ Lemma prodScalar_dense d v : wfd d ->
 Proof.
   intro W. eexists. split; [reflexivity|]. split; [reflexivity|]. split; [reflexivity|].
   intros i j Hi Hj. unfold absd at 1. rewrite getv_mapdat by assumption. unfold mscal, absd. ring.
+Qed.
+Definition tr (i j : nat) (v : Q) : trip := (i, j, v).
+Arguments tr (i j)%nat v%Q.
+Definition nrmSC (r : res spc) : option (nat * nat * list Q) :=
+  match r with Ok s => match SC_getValues s with Ok v => Some (snr s, snc s, map Qred v) | _ => None end | _ => None end.
+Definition nrmSE (r : res spe) : option (nat * nat * list Q) :=
+  match r with Ok s => match SE_getValues s with Ok v => Some (enr s, enc s, map Qred v) | _ => None end | _ => None end.
+
+(* ------------------------------------------------------------------ isSymmetric, getDiagonal, sample *)
+Lemma isSymmetric_generic d : nr d = nc d -> (0 < nr d)%nat ->
+  (G_isSymmetric false false d = true <->
+   forall i j, (i < nr d)%nat -> (j < nr d)%nat -> Qabs (getv d i j - getv d j i) <= 1 # 10000000000).
+Proof.
+  intros Sq Hpos. unfold G_isSymmetric, isEmpty, isSquare, isEmpty.
+  assert (E1 : (nr d =? 0)%nat = false) by (apply Nat.eqb_neq; lia).
+  assert (E2 : (nc d =? 0)%nat = false) by (apply Nat.eqb_neq; lia).
+  rewrite E1, E2, <- Sq, Nat.eqb_refl. simpl. rewrite forallb_forall. split.
+  - intros H i j Hi Hj. apply qleb_true. apply (H (i, j)). apply in_rowmajor. split; assumption.
+  - intros H [i j] Hin. apply in_rowmajor in Hin. simpl. apply qleb_true. apply H; tauto.
+Qed.
+
+Lemma flat_map_singletons {A B} (c : A -> bool) (x : A -> B) l : (forall a, In a l -> c a = false) ->
+  flat_map (fun a => if c a then [] else [x a]) l = map x l.
+Proof.
+  induction l as [|a l IH]; intro H; simpl; [reflexivity|].
+  rewrite (H a) by (left; reflexivity). simpl. rewrite IH by (intros; apply H; right; assumption). reflexivity.
+Qed.
+(* main diagonal of a square matrix *)
+Lemma getDiagonal_generic sq d : isSquare sq d = true -> nr d = nc d ->
+  G_getDiagonal sq d 0 = Ok (map (fun r => getv d r r) (seq 0 (nr d))).
+Proof.
+  intros HS Sq. unfold G_getDiagonal. rewrite HS. simpl negb. cbv iota. f_equal.
+  rewrite (flat_map_singletons
+    (fun r => ((Z.of_nat r + 0 <? 0) || (Z.of_nat (nr d) <=? Z.of_nat r + 0) || (Z.of_nat r + 0 <? 0) || (Z.of_nat (nc d) <=? Z.of_nat r + 0))%Z%bool)
+    (fun r => getv d (Z.to_nat (Z.of_nat r + 0)) (Z.to_nat (Z.of_nat r + 0)))).
+  - apply map_ext. intro r. rewrite Z.add_0_r, Nat2Z.id. reflexivity.
+  - intros r Hr. apply in_seq in Hr.
+    assert (H1 : (Z.of_nat r + 0 <? 0)%Z = false) by (apply Z.ltb_ge; lia).
+    assert (H2 : (Z.of_nat (nr d) <=? Z.of_nat r + 0)%Z = false) by (apply Z.leb_gt; lia).
+    assert (H3 : (Z.of_nat (nc d) <=? Z.of_nat r + 0)%Z = false) by (apply Z.leb_gt; lia).
+    rewrite H1, H2, H3. reflexivity.
+Qed.
+
+Lemma fold_setValue_loop (h : nat -> nat -> Q) : forall ps d,
+  fold_left (fun s p => setValue false s (fst p) (snd p) (h (fst p) (snd p))) ps d = loop_set false ps (fun i j _ => h i j) d.
+Proof. induction ps as [|p ps IH]; intro d; [reflexivity|]. simpl fold_left. rewrite IH. reflexivity. Qed.
+
+Lemma select_idx_keep total keep : keep <> [] -> select_idx total keep false = keep.
+Proof. destruct keep; [contradiction|reflexivity]. Qed.
+Lemma length_zero_false {A} (l : list A) : l <> [] -> (length l =? 0)%nat = false.
+Proof. destruct l; [contradiction|reflexivity]. Qed.
+(* MatrixRectangular::sample with explicit row and column lists *)
+Lemma sample_spec a rk ck : rk <> [] -> ck <> [] ->
+  (forall r, In r rk -> (r < nr a)%nat) -> (forall c, In c ck -> (c < nc a)%nat) ->
+  exists r, R_sample a rk ck false false = Some r /\ nr r = length rk /\ nc r = length ck /\
+    meq (length rk) (length ck) (absd r) (msample rk ck (absd a)).
+Proof.
+  intros Hr Hc Hrr Hcc. unfold R_sample. rewrite !select_idx_keep by assumption.
+  rewrite !length_zero_false by assumption. simpl orb.
+  assert (F1 : forallb (fun r => (r <? nr a)%nat) rk = true) by (apply forallb_forall; intros x Hx; apply Nat.ltb_lt; apply Hrr; exact Hx).
+  assert (F2 : forallb (fun c => (c <? nc a)%nat) ck = true) by (apply forallb_forall; intros x Hx; apply Nat.ltb_lt; apply Hcc; exact Hx).
+  rewrite F1, F2. simpl.
+  rewrite (fold_setValue_loop (fun i j => getv a (nth i rk O) (nth j ck O))).
+  destruct (loop_set_plain_full (fun i j (_ : Q) => getv a (nth i rk O) (nth j ck O)) (tab (length rk) (length ck) mzero) (wfd_tab _ _ _)) as [H1 [H2 [H3 H4]]].
+  rewrite !nr_tab, !nc_tab in *.
+  eexists. split; [reflexivity|]. split; [exact H1|]. split; [exact H2|].
+  intros i j Hi Hj. unfold absd at 1. rewrite (H4 i j Hi Hj). reflexivity.
 Qed.
